@@ -56,4 +56,59 @@ theorem modify_allocates_no_teid (cfg : Cfg) (w : World) (a : Nat) (r : ModReq) 
         | (dsimp only; rw [setConn_teid]; dsimp only
            exact ⟨fun x h => foldl_free_only_clears _ _ x h, foldl_free_offset _ _⟩)
 
+theorem foldl_drop_teid_only_clears (cfg : Cfg) : ∀ (ss : List Session) (w : World) (x : Nat),
+    (ss.foldl (dropSession cfg) w).teid.used x = true → w.teid.used x = true
+  | [], _, _, h => h
+  | s :: rest, w, x, h => by
+    rw [List.foldl_cons] at h
+    have := foldl_drop_teid_only_clears cfg rest _ x h
+    exact foldl_free_only_clears s.pdrs w.teid x this
+
+/-- a request is an establishment -/
+def Req.isEst : Req → Bool
+  | .est _ _ _ => true
+  | _ => false
+
+/-- **only Session Establishment takes TEIDs**: every other request — modifications with any mix of IEs, deletions, reports,
+association setups and endings, PFD updates — leaves every free TEID free -/
+theorem only_establishment_takes_teids (cfg : Cfg) (w : World) (q : Req) (hq : q.isEst = false) (x : Nat)
+    (h : (stepReq cfg w q).teid.used x = true) : w.teid.used x = true := by
+  cases q with
+  | assoc a node =>
+    have : (stepReq cfg w (.assoc a node)).teid = w.teid := by show (assocSetup w a node).teid = w.teid; unfold assocSetup; rw [setConn_teid]
+    rw [this] at h; exact h
+  | pfd a apps ok =>
+    have : (stepReq cfg w (.pfd a apps ok)).teid = w.teid := by
+      show (pfdManagement w a apps ok).teid = w.teid
+      unfold pfdManagement
+      cases ok with
+      | true => simp only [if_true]; rw [setConn_teid]
+      | false => rfl
+    rw [this] at h; exact h
+  | est a lseid r => simp [Req.isEst] at hq
+  | mod a r => exact (modify_allocates_no_teid cfg w a r).1 x h
+  | del a seid =>
+    have h' : (deleteSession cfg w a seid).1.teid.used x = true := h
+    unfold deleteSession at h'
+    dsimp only at h'
+    split at h'
+    · exact h'
+    · rename_i s _
+      rw [setConn_teid] at h'
+      exact foldl_free_only_clears s.pdrs w.teid x h'
+  | report a seid =>
+    have h' : (reportContextNotFound cfg w a seid).teid.used x = true := h
+    unfold reportContextNotFound at h'
+    dsimp only at h'
+    split at h'
+    · exact h'
+    · rename_i s _
+      rw [setConn_teid] at h'
+      exact foldl_free_only_clears s.pdrs w.teid x h'
+  | shutdown a =>
+    have h' : (shutdownConn cfg w a).teid.used x = true := h
+    unfold shutdownConn at h'
+    dsimp only at h'
+    exact foldl_drop_teid_only_clears cfg _ w x h'
+
 end Agent
